@@ -24,3 +24,56 @@ Theorem C16_diff_verdicts fsub cr sh sl dh dl :
   fst (diff_core fsub cr sh sl dh dl) = StErr.
 Proof. exact (diff_core_status fsub cr sh sl dh dl). Qed.
 Print Assumptions C16_diff_verdicts.
+
+(** ** no panic: on files whose archives are well-formed rings (what Open guarantees whatever the
+    bytes: C15_open_trusts_only_validated), at clocks of the domain, with any archive selection
+    and any window *)
+From WT Require Import Base.Bytes Model.Codec Model.FileImage Spec.LogSpec Proofs.TimeProofs Proofs.RingProofs
+  Proofs.FetchProofs Proofs.HostileProofs Proofs.ShapeProofs Proofs.NoPanicProofs.
+
+Theorem C16_fetch_never_panics arcs id from until now :
+  readable arcs now -> 0 <= from < 2^32 -> 0 <= until < 2^32 ->
+  fetch_from_archive arcs id from until now <> FPanic.
+Proof. exact (fetch_never_panics arcs id from until now). Qed.
+Print Assumptions C16_fetch_never_panics.
+
+Theorem C16_view_no_panic f aid from until0 now sh :
+  good_file f now -> 0 <= from < 2^32 -> 0 <= until0 < 2^32 -> 0 <= now < 2^32 ->
+  fst (view_cmd f aid from until0 now sh) <> StPanic.
+Proof. exact (view_no_panic f aid from until0 now sh). Qed.
+Print Assumptions C16_view_no_panic.
+
+Theorem C16_view_raw_no_panic f aid from until0 now sh so : fst (view_raw_cmd f aid from until0 now sh so) <> StPanic.
+Proof. exact (view_raw_no_panic f aid from until0 now sh so). Qed.
+Print Assumptions C16_view_raw_no_panic.
+
+Theorem C16_diff_no_panic fsub src dest aid from until0 now :
+  good_file src now -> good_file dest now -> 0 <= from < 2^32 -> 0 <= until0 < 2^32 -> 0 <= now < 2^32 ->
+  fst (diff_one fsub src dest aid from until0 now) <> StPanic.
+Proof. exact (diff_no_panic fsub src dest aid from until0 now). Qed.
+Print Assumptions C16_diff_no_panic.
+
+Theorem C16_sum_no_panic F files aid from until0 now sh :
+  Forall (fun f => good_file f now) files -> 0 <= from < 2^32 -> 0 <= until0 < 2^32 -> 0 <= now < 2^32 ->
+  fst (sum_item F files aid from until0 now sh) <> StPanic.
+Proof. exact (sum_no_panic F files aid from until0 now sh). Qed.
+Print Assumptions C16_sum_no_panic.
+
+Theorem C16_sum_diff_no_panic F fsub files dest aid from until0 now :
+  Forall (fun f => good_file f now) files -> good_file dest now ->
+  0 <= from < 2^32 -> 0 <= until0 < 2^32 -> 0 <= now < 2^32 ->
+  fst (sum_diff_item F fsub files dest aid from until0 now) <> StPanic.
+Proof. exact (sum_diff_no_panic F fsub files dest aid from until0 now). Qed.
+Print Assumptions C16_sum_diff_no_panic.
+
+(** copy / sum-copy: reading, comparing, creating and reporting never panic; a panic could only
+    come out of the library's batch update, which never panics on any history of the clock domain
+    (C02_no_panic together with C03_step_refines) *)
+Theorem C16_copy_panic_only_from_update F src dest o until now :
+  src <> RdPanic ->
+  (forall d, dest_handle dest o = Some d ->
+             fetch_ts_list (hd_arcs d) (co_archive o) (co_from o) until now <> TslPanic) ->
+  r_status (copy_core F src dest o until now) = StPanic ->
+  exists d sl sdif, snd (update_dest_with_diff F d sl sdif 0 (co_from o) until now (co_copy_nan o)) = OutPanic.
+Proof. exact (copy_panic_only_from_update F src dest o until now). Qed.
+Print Assumptions C16_copy_panic_only_from_update.
